@@ -207,11 +207,16 @@ async def rescan_nglobs(workflow: Workflow, reporter: ReporterClient) -> None:
     """
     async with workflow.db:
         registrations = list(workflow.nglob_registrations())
-    if len(registrations) == 0:
+        # The registrations of detached steps are brought up to date silently, see below.
+        detached_registrations = list(workflow.nglob_registrations(detached=True))
+    if len(registrations) + len(detached_registrations) == 0:
         return
 
     # Compare the old matches (persisted from the previous run) to a fresh glob scan.
-    await reporter("STARTUP", f"Checking {len(registrations)} nglob(s) for new or deleted matches")
+    if len(registrations) > 0:
+        await reporter(
+            "STARTUP", f"Checking {len(registrations)} nglob(s) for new or deleted matches"
+        )
     changed_nglobs = []
     all_deleted = set()
     all_added = set()
@@ -234,6 +239,15 @@ async def rescan_nglobs(workflow: Workflow, reporter: ReporterClient) -> None:
         await reporter("DELETED", path)
     for path in sorted(all_added):
         await reporter("UPDATED", path)
+
+    # A detached step returns to the workflow as it is (state, hash and recorded matches)
+    # when the step that created it runs again and declares it unchanged.
+    # Matches that appeared or disappeared while StepUp was not running would go unnoticed then.
+    for nglob_i, old_ng, step in detached_registrations:
+        new_ng = NamedGlob(old_ng.pattern, old_ng.subs)
+        new_ng.glob()
+        if set(new_ng.files()) != set(old_ng.files()):
+            changed_nglobs.append((nglob_i, step, new_ng))
 
     # A fresh scan is already the correct new state,
     # so there is no need to recompute it through Workflow.process_nglob_changes.
